@@ -226,6 +226,30 @@ def diagOf {α} [Zero α] (v : Arr1 α) : Arr2 α := ⟨v.n, v.n, fun r c => if 
 def Arr2.add {α} [Add α] (A B : Arr2 α) : Arr2 α := ⟨A.rows, A.cols, fun r c => A.get r c + B.get r c⟩
 def Arr2.sub {α} [Sub α] (A B : Arr2 α) : Arr2 α := ⟨A.rows, A.cols, fun r c => A.get r c - B.get r c⟩
 
+/-- a Python dict with int keys (the last value stored for a key; a missing key reads the default, where Python raises) -/
+abbrev IntMap (β : Type) := List (Int × β)
+def IntMap.set {β} (d : IntMap β) (k : Int) (v : β) : IntMap β := (k, v) :: d
+def IntMap.get {β} [Inhabited β] (d : IntMap β) (k : Int) : β :=
+  match d.find? (fun p => p.1 == k) with
+  | some p => p.2
+  | none => default
+
+/-- `np.trace(np.dot(A, B))` = `Σ_i Σ_j A_ij B_ji` -/
+def traceDot {α} [Zero α] [Add α] [Mul α] (A B : Arr2 α) : α :=
+  sumTo A.rows (fun i => sumTo A.cols (fun j => A.get i j * B.get j i))
+
+/-- `np.sum(np.abs(M) > t)`: how many entries have magnitude above the threshold -/
+def countAbove {α} [Zero α] [Sub α] [LT α] [DecidableLT α] (M : Arr2 α) (t : α) : Int :=
+  ((List.range M.rows).foldl (fun acc r =>
+    acc + ((List.range M.cols).filter (fun c => decide (t < (if M.get r c < 0 then 0 - M.get r c else M.get r c)))).length) 0 : Nat)
+
+/-- what `bayesian_information_criterion` reads of a model state -/
+structure BicModel (α : Type) where
+  num_clusters : Int
+  train_inverse : List (Arr2 α)
+  empirical_covariance : List (Arr2 α)
+  point_labels : List Int
+
 /-- a sparsity weight: one number or an `NW × NW` array (`isinstance` dispatch in `compute_lambda_sum`) -/
 inductive Lambda (α : Type) where
   | scalar (v : α)
